@@ -73,6 +73,9 @@ def strSlice (s : Str) (lo hi : Int) : Option Str :=
 /-- `[]byte(s)`: the UTF-8 bytes of a string -/
 def strBytes (s : Str) : List Int := (Utf8.encode s).map Int.ofNat
 
+/-- `bytes.HasPrefix(s, prefix)` -/
+def bytesHasPrefix (s pre : List Int) : Bool := pre.isPrefixOf s
+
 def strSliceFrom (s : Str) (lo : Int) : Option Str := strSlice s lo (strLen s)
 def strSliceTo (s : Str) (hi : Int) : Option Str := strSlice s 0 hi
 
